@@ -100,6 +100,7 @@ type FnInfo struct {
 	nfree   int
 	name    string
 	isRepo  bool
+	harness uint8 // 0 unknown, 1 code under test / library, 2 harness or stub
 }
 
 type deferRec struct {
@@ -139,6 +140,13 @@ type Thread struct {
 	recovered bool
 	done      bool
 	result    Value
+
+	// thread mode
+	vc          vclock
+	resumed     bool
+	waitJoin    bool
+	blockedOn   *Node
+	blockedKind int
 }
 
 // Engine is one worker: its own term table, solver, heap and exploration state.
@@ -189,18 +197,24 @@ type Engine struct {
 	funcsSeen map[*ssa.Function]bool
 	stubsHit  map[string]bool
 
-	clock      int64
-	blobs      []blobEntry
-	unsupSeen  map[string]bool
-	rtypes     typeutil.Map
-	inInitOf   *ssa.Package
-	uniq       map[string]*Node
-	panicStack string
-	curDst     int
-	pendingAdv *Frame
-	stepTop    *Frame
-	stepFr     Frame
-	stepTh     Thread
+	clock        int64
+	race         raceState
+	raceOn       bool
+	racesSeen    map[string]bool
+	blobs        []blobEntry
+	unsupSeen    map[string]bool
+	rtypes       typeutil.Map
+	inInitOf     *ssa.Package
+	uniq         map[string]*Node
+	panicStack   string
+	curDst       int
+	pendingAdv   *Frame
+	stepTop      *Frame
+	stepFr       Frame
+	stepTh       Thread
+	stepThread   *Thread
+	stepNThreads int
+	stepRaceOn   bool
 }
 
 type methKey struct {
@@ -236,6 +250,8 @@ func NewEngine(P *Program, cfg Config) (*Engine, error) {
 	e.res = newResults()
 	e.ps.eqs = map[*Term]uint64{}
 	e.ps.lits = map[*Term]bool{}
+	e.race = raceState{acc: map[locKey]accInfo{}, locks: map[*Node]vclock{}}
+	e.racesSeen = map[string]bool{}
 	e.ps.ufApps = map[string][][2]*Term{}
 	registerIntrinsics(e)
 	return e, nil
